@@ -117,16 +117,16 @@ PROPS.update({
         "Theorem c03_accepts_iff_constraints: on an automaton passing both certificates, pattern i is accepted under a valuation iff all constraints "
         "of pattern i are true - i.e. exactly when the one-pattern matcher's constraints hold; evaluated per real automaton; ManyMatcher and "
         "NaiveManyMatcher are compared as sets of (pattern, bindings) incl. the match data on every generated host.",
-        "verified certificates (sound + complete) on the real automaton + ManyMatcher vs NaiveManyMatcher differential", ["c03", "pg03"]),
+        "verified certificates (sound + complete) on the real automaton + ManyMatcher vs NaiveManyMatcher differential", ["c03", "pg03", "tab03"]),
     "C04": aut_prop("translation_validation",
         "Theorem c04_heuristic_independent_acceptance: two certified automata for the same constraint lists accept the same patterns under the same "
         "valuations; every heuristic answer sequence is enumerated while the number of builds stays <= 24 (quick) / 256 (thorough), random beyond; "
         "each automaton is certified and all match multisets are compared pairwise.",
-        "verified certificates on every automaton of every enumerated heuristic answer sequence + pairwise multiset comparison", ["c04", "pg04"]),
+        "verified certificates on every automaton of every enumerated heuristic answer sequence + pairwise multiset comparison", ["c04", "pg04", "tab03"]),
     "C06": aut_prop("translation_validation",
         "Theorem c06_pattern_independent_acceptance (certified automata for pattern lists sharing a constraint list accept it identically); each "
         "pattern compiled alone vs inside the set, a rotated set with renumbering, duplicates, n_patterns/get_pattern.",
-        "verified certificates + alone-vs-together / permutation differential", ["c06"]),
+        "verified certificates + alone-vs-together / permutation differential", ["c06", "tab06"]),
     "C07": aut_prop("exploration",
         "each (pattern, anchor) occurrence found by the independent scan must be reported exactly once under every heuristic (multiset equality); "
         "the model traversal is compared as exact sequences. No unambiguity theorem yet (cert_unamb of DESIGN.md is not built).",
@@ -134,7 +134,7 @@ PROPS.update({
     "C09": aut_prop("translation_validation",
         "wf_check (proved to establish every clause of the property, Theorem c09_wf_check_sound / c09_clauses) is evaluated on the dump of every "
         "automaton built, for all enumerated heuristic answer sequences - all states, not only those a host visits.",
-        "verified structural checker (Coq soundness proof) run on the dump of every real automaton", ["c09"]),
+        "verified structural checker (Coq soundness proof) run on the dump of every real automaton", ["c09", "tab09"]),
     "C05": {"subs": ["c05", "pg05"], "level": "exploration", "rule": AUT_RULE + "; for C05 each (pattern, host) pair is one case",
         "trusted_base": AUT_TB, "assumptions": AUT_ASSUME, "timeout": 3000,
         "explanation": "SinglePatternMatcher::find_matches / match_exists and NaiveManyMatcher are compared with the extracted model (exact sequences) "
